@@ -647,7 +647,7 @@ PROPS = {
         level_text='Theorems: the payload stream of a message reports its end only in a state where the final frame has been consumed completely; Read on an uncompressed '
                    'message reports a clean end only then; a transport that ended inside a payload fails the read. Every crash point (cut offset) of scripted streams is '
                    'run through model and library.',
-        level_note='C04_no_silent_truncation is the full statement for uncompressed streams (every cut offset, both endings, both roles, any buffer sizes); compressed streams are covered by the exhaustive cut sweeps of the correspondence.',
+        level_note='full at stream level: C04_no_silent_truncation (uncompressed streams) and C04_no_silent_truncation_compressed (streams with compressed messages, every inflater, both takeover settings) — every cut offset, both endings, both roles, any buffer sizes; the cut sweeps of the correspondence tie the model to the library.',
         technique='Coq proof (induction on the frame loop) + differential run over every cut offset x {EOF, failure} x buffer sizes',
     ),
     'C08': dict(
@@ -656,7 +656,7 @@ PROPS = {
         not_covered=['actual heap allocation (runtime behaviour)'],
         level_text='Theorems: after limit+1 bytes every Read fails with the limit error and writes Close 1009; decoded lengths are < 2^63 and top-bit lengths are rejected; '
                    'the default limit constant is regenerated from read.go. Limits around the boundary, changed between messages, and compression bombs are run through model and library.',
-        level_note='C08_limit_stream is the stream-level theorem (within the limit: delivered; over: fails after exactly L+1 bytes with Close 1009) for uncompressed streams; compressed input incl. bombs by correspondence; memory is a statement about the model\'s state only.',
+        level_note='stream-level theorems: C08_limit_stream (uncompressed) and C08_limit_stream_compressed (the limit counts DECOMPRESSED bytes, for every inflater: a bomb is cut off after exactly L+1 delivered bytes with Close 1009); bombs > 1000:1 are also run through model and library; memory is a statement about the model\'s state only (the model inflates a whole message before serving it, the library streams: real heap use is not claimed).',
         technique='Coq proof + differential run (limits -1,0,1,125,1000,65536,default; sizes limit-1..much larger; bombs)',
     ),
     'C15': dict(
